@@ -28,7 +28,7 @@ SPEC = dict(
         quick="alphabet {M1, M2, M4(ill-scaled, warm-start sensitive), reset}; all histories of length <= 4 for (k=2, max_norm=1) and of length <= 3 "
               "for (k=1,max_norm=1), (k=2,max_norm=0), (k=3,max_norm=0.3), (k=4,max_norm=1), (k=2,optim_niter=1); n_tasks=2",
         thorough="alphabet {M1,M2,M3,M4,reset}; k in 1..4 x max_norm in {1,0.3,0} x optim_niter in {20,1}: all histories of length <= 5 when "
-                 "(optim_niter=20, max_norm=1) and <= 4 otherwise; n_tasks=3: k in 1..3, length <= 4",
+                 "(optim_niter=20, max_norm=1) and <= 4 otherwise; n_tasks=3: k in 1..3, length <= 4; n_tasks in {4,5}: k in {1,2}, length <= 3",
     ),
     assumptions=[
         "the ECOS solver is deterministic: equal inputs and equal warm starts give bit-identical outputs (checked by the double-run slice)",
@@ -57,6 +57,14 @@ def _mats(n_tasks):
             "M3": [[0.5, 0.5, 1.0, 0.0], [1.0, -0.2, 0.1, 0.3], [0.2, 1.0, -0.3, 0.4]],
             "M4": [[100.0, 0.0, 0.0, 0.0], [0.0, 0.01, 0.0, 0.0], [0.0, 0.0, 1.0, 0.0]],
         }
+    if n_tasks >= 4:  # generic well-conditioned family for 4 and 5 tasks (n_tasks x (n_tasks+1)), plus one ill-scaled member
+        k = n_tasks
+
+        def mk(a, b, c):
+            return [[(1.0 + a * i if j == i else (b if j == i + 1 else (c if j == (i + 2) % (k + 1) else 0.0))) for j in range(k + 1)] for i in range(k)]
+
+        rows = {"M1": mk(0.1, 0.2, 0.0), "M2": mk(0.3, -0.5, 0.25), "M3": mk(-0.1, 0.4, -0.3),
+                "M4": [[(100.0 if i == 0 else (0.01 if i == 1 else 1.0)) if j == i else 0.0 for j in range(k + 1)] for i in range(k)]}
     return {k: torch.tensor(v, dtype=torch.float64) for k, v in rows.items()}
 
 
@@ -71,6 +79,7 @@ def gen_cases(tier, seed):
         cfgs = [dict(k=k, max_norm=mn, niter=ni, n_tasks=2, L=5 if (ni == 20 and mn == 1.0) else 4) for k in (1, 2, 3, 4) for mn in (1.0, 0.3, 0.0)
                 for ni in (20, 1)]
         cfgs += [dict(k=k, max_norm=mn, niter=20, n_tasks=3, L=4) for k in (1, 2, 3) for mn in (1.0, 0.0)]
+        cfgs += [dict(k=k, max_norm=1.0, niter=20, n_tasks=nt, L=3) for nt in (4, 5) for k in (1, 2)]
     cases = []
     for cfg in cfgs:
         L = cfg.pop("L")
